@@ -63,7 +63,13 @@ func (r *c13Run) noteExpired() {
 	c13Expired.Add(1)
 }
 
-func (r *c13Run) boot() string {
+func (r *c13Run) boot() (res string) {
+	defer func() {
+		if p := recover(); p != nil { // LoadCheckpoint panics on some unreadable snapshot files
+			r.store = nil
+			res = "loaded error"
+		}
+	}()
 	r.gate = newGateLoc(r.inner)
 	r.events = make(chan string, 256)
 	r.retained = make(chan []uint64, 256)
@@ -76,6 +82,7 @@ func (r *c13Run) boot() string {
 	})
 	r.store.RegisterSourceSplitter(&countingSplitter{})
 	if err := r.store.LoadCheckpoint(); err != nil {
+		r.store = nil // the job does not start
 		return "loaded error"
 	}
 	if ck := r.store.CurrentCheckpoint(); ck != nil {
@@ -190,6 +197,33 @@ func c13Impl(c lib.Case) []string {
 				r.noteExpired()
 				out = append(out, "timeout")
 			}
+		case "crashwrite":
+			// the job process is lost in the middle of fileStore.Write for checkpoint n (half of the bytes reach
+			// the real LocalDirectory.Write), then the job restarts
+			id, _ := strconv.ParseUint(f[1], 10, 64)
+			calls := r.gate.snapshot(func(g *gateCall) bool {
+				select {
+				case <-g.relA:
+					return false
+				default:
+				}
+				return g.write && g.paths[0] == c13Path(id)
+			})
+			if len(calls) == 0 {
+				out = append(out, "disabled")
+				continue
+			}
+			calls[0].partial.Store(true)
+			close(calls[0].relA)
+			select {
+			case <-calls[0].performed:
+			case <-time.After(r.longPatience()):
+				r.noteExpired()
+				out = append(out, "timeout")
+				continue
+			}
+			r.gate.kill()
+			out = append(out, r.boot())
 		case "lock":
 			id, _ := strconv.ParseUint(f[1], 10, 64)
 			calls := r.gate.snapshot(func(g *gateCall) bool {
@@ -317,6 +351,9 @@ func c13Impl(c lib.Case) []string {
 					break extras
 				}
 			}
+			// the received ids as a multiset: with two or more notification goroutines outstanding their order is
+			// up to the scheduler (D54, open; fixes/D54_demo_test.go shows [3 2] on the real store) and the driver
+			// tags exactly those lines; a single outstanding notification is compared as is
 			if bad {
 				out = append(out, "notify multi "+showU64s(got))
 			} else {
@@ -494,6 +531,12 @@ func c13Gen(r *lib.Rng, tier string, i int) lib.Case {
 		case k == 21:
 			c.Ops = append(c.Ops, lib.Pick(r, []string{"current", "files"}))
 		case k == 22:
+			if strings.Contains(c.Header, "dir") && len(ref.parked) > 0 && r.Chance(1, 2) {
+				// crash in the middle of a snapshot write on the real LocalDirectory (D60): the job does not restart
+				c.Ops = append(c.Ops, fmt.Sprintf("crashwrite %d", ref.parked[r.Intn(len(ref.parked))]), "current")
+				c.Tags = append(c.Tags, "D60", "crash")
+				return c
+			}
 			if r.Chance(1, 2) {
 				c.Ops = append(c.Ops, "crash")
 				ref.load()
@@ -618,6 +661,10 @@ func c13FixedRaw(tier string) []lib.Case {
 		cs = append(cs, lib.Case{Header: hdr, Tags: []string{"D13", "overlap"}, Ops: []string{"init -", "ckpt", "write 1", "lock 1", "ckpt", "ckpt", "write 3", "lock 3",
 			"rems ?", "drain ?", "write 2", "lock 2", "rems ?", "drain ?", "current", "files", "remove 1", "crash", "ckpt"}})
 	}
+	// D60 (open): the job process is lost in the middle of LocalDirectory.Write (create + copy, no rename) for
+	// checkpoint 2; the cut-off file of 2 is the newest snapshot file and LoadCheckpoint fails on it
+	cs = append(cs, lib.Case{Header: "M C13 dir", Tags: []string{"D60", "crash"}, Ops: []string{"init -", "ckpt", "write 1", "lock 1", "ckpt", "crashwrite 2", "current"}})
+	cs = append(cs, lib.Case{Header: "M C13 dir", Tags: []string{"D60", "crash"}, Ops: []string{"init 5,6", "ckpt", "ckpt", "write 8", "crashwrite 7", "current"}})
 	// base64 boundary pairs: the older of two coexisting files may list first
 	b := lib.Case{Header: "M C13 mem", Tags: []string{"stale-files", "boundaries"}}
 	for _, x := range c13Boundaries {
